@@ -10,11 +10,8 @@ Local Open Scope N_scope.
 Definition T (_ : store) : Prop := True.
 
 Lemma wpT_run {A} (m : act A) st (Q : A -> store -> Prop) :
-  wp T m st Q -> exists st1 a, run_act None st m = (st1, None, Some a) /\ Q a st1.
-Proof.
-  intros H. destruct (run_act_none_some m st) as (st1 & a & Eq). exists st1, a. split; [exact Eq|].
-  pose proof (wp_run T m st Q None I H) as R. now rewrite Eq in R.
-Qed.
+  wp false T m st Q -> exists st1 a, run_act None st m = (st1, None, Some a) /\ Q a st1.
+Proof. apply wp_total. Qed.
 
 Definition rng (st : store) : N := snd (eff st) - fst (eff st).
 Definition mu (st : store) : nat := length (di_of st).
@@ -44,11 +41,12 @@ Qed.
 
 Section Quant.
 Variable c : cfg.
+Hypothesis NB : blockOnOverflow c = false.   (* with block_on_overflow Start itself can park: see Proofs7 *)
 
 (* ---- backup / put ---- *)
 Lemma q_backup {A} st (k : act A) (Q : A -> store -> Prop) v0 :
-  (forall st', (st' = st \/ exists n, st' = set_ikey KSi n st) -> wp T k st' Q) ->
-  wp T (backup c v0 k) st Q.
+  (forall st', (st' = st \/ exists n, st' = set_ikey KSi n st) -> wp false T k st' Q) ->
+  wp false T (backup c v0 k) st Q.
 Proof.
   intros Hk. unfold backup. destruct (reqSized c); [apply Hk; now left|].
   cbn [wp]. split; [exact I|]. apply Hk. right. eexists. reflexivity.
@@ -56,14 +54,14 @@ Qed.
 
 Lemma q_put v st x :
   Cq v st ->
-  wp T (putInternal c v x) st
+  wp false T (putInternal c v x) st
      (fun y st' => if snd y
                    then Cq (fst y) st' /\ ri (fst y) = ri v /\ wi (fst y) = wi v + 1 /\ cdi (fst y) = cdi v /\
                         stopped (fst y) = stopped v /\ di_of st' = di_of st
                    else fst y = v /\ st' = st /\ (capacity c < qsize v + sizeof c x)%Z).
 Proof.
   intros HC.
-  apply (wp_put c T (fun v' st' => Cq v' st' /\ ri v' = ri v /\ wi v' = wi v + 1 /\ cdi v' = cdi v /\
+  apply (wp_put c false T (fun v' st' => Cq v' st' /\ ri v' = ri v /\ wi v' = wi v + 1 /\ cdi v' = cdi v /\
                                   stopped v' = stopped v /\ di_of st' = di_of st)).
   - intros; exact I.
   - intros v' st' n (H1 & H2). split; [now apply Cq_si|exact H2].
@@ -79,7 +77,7 @@ Definition P0 (v : vol) : Prop := wi v = ri v -> qsize v = 0%Z /\ cdi v = [].
 
 Lemma q_reenqueue todo : forall v st dels errc,
   Cq v st ->
-  wp T (reenqueue c v todo dels errc) st
+  wp false T (reenqueue c v todo dels errc) st
      (fun y st' => Cq (fst y) st' /\ ri (fst y) = ri v /\ di_of st' = di_of st /\
                    stopped (fst y) = stopped v /\ wi v <= wi (fst y) /\
                    (wi (fst y) - wi v) + N.of_nat (length (cdi (fst y))) <=
@@ -91,7 +89,7 @@ Proof.
     split; [|repeat split; auto; try lia].
     + destruct HC as (A & B & C). repeat split; auto.
     + intros _ HP Hw. now destruct (HP Hw).
-  - assert (Skip : wp T (reenqueue c v t (dels ++ [i]) errc) st
+  - assert (Skip : wp false T (reenqueue c v t (dels ++ [i]) errc) st
        (fun y st' => Cq (fst y) st' /\ ri (fst y) = ri v /\ di_of st' = di_of st /\
                    stopped (fst y) = stopped v /\ wi v <= wi (fst y) /\
                    (wi (fst y) - wi v) + N.of_nat (length (cdi (fst y))) <=
@@ -102,6 +100,7 @@ Proof.
       split; [exact H1|]. split; [exact H2|]. split; [exact H3|]. split; [exact H4|]. split; [exact H5|].
       split; [cbn [length]; lia|exact H7]. }
     destruct val as [[n|l|r]|]; try exact Skip. clear Skip.
+    unfold would_wait. rewrite NB. cbn [andb].
     apply wp_bind. eapply wp_mono; [intros s0 Hs0; exact Hs0| |apply (q_put v st r HC)].
     intros [v' ok] st' H. cbn [fst snd] in H. destruct ok.
     + destruct H as (H1 & H2 & H3 & H4 & H5 & H6). cbn [fst snd].
@@ -124,7 +123,7 @@ Proof.
 Qed.
 
 Lemma q_initStorage st :
-  wp T (initStorage c) st
+  wp false T (initStorage c) st
      (fun v st' => st' = st /\ eff st = (ri v, wi v) /\ cdi v = [] /\ stopped v = false /\ P0 v).
 Proof.
   unfold initStorage. cbn [wp].
@@ -155,7 +154,7 @@ Definition init_post (st : store) (y : vol * nat) (st' : store) : Prop :=
   (wi (fst y) - snd (eff st)) + N.of_nat (length (cdi (fst y))) <= N.of_nat (mu st) /\
   (fits c -> wi (fst y) = ri (fst y) -> cdi (fst y) = []).
 
-Lemma q_initClient st : wf_store st -> wp T (initClient c) st (init_post st).
+Lemma q_initClient st : wf_store st -> wp false T (initClient c) st (init_post st).
 Proof.
   intros (Hle & Hwn & Hdi). unfold initClient. apply wp_bind.
   eapply wp_mono; [intros s0 Hs0; exact Hs0| |apply (q_initStorage st)].
@@ -183,7 +182,7 @@ Qed.
 (* ---- the drain loop ---- *)
 Lemma q_finish v st index :
   Cq v st ->
-  wp T (itemDispatchingFinish v index) st
+  wp false T (itemDispatchingFinish v index) st
      (fun v' st' => Cq v' st' /\ ri v' = ri v /\ wi v' = wi v /\ stopped v' = stopped v /\
                     qsize v' = qsize v /\
                     cdi v' = swap_remove index (cdi v) /\ di_of st' = cdi v').
@@ -202,7 +201,7 @@ Definition gn_post (v : vol) (y : vol * option (N * N)) (st' : store) : Prop :=
   | None => length (cdi (fst y)) = length (cdi v)
   end.
 
-Lemma q_getNext v st : Cq v st -> ri v < wi v -> wp T (getNextItem v) st (gn_post v).
+Lemma q_getNext v st : Cq v st -> ri v < wi v -> wp false T (getNextItem v) st (gn_post v).
 Proof.
   intros HC Hlt. destruct HC as (A & B & C). unfold getNextItem. cbn [wp]. split; [exact I|].
   change (fst (apply_ops [SetIdx KRi (ri (set_ri_cdi v (ri v + 1) (cdi v ++ [ri v])));
@@ -240,7 +239,7 @@ Definition rl_post (v : vol) (y : vol * rres) (st' : store) : Prop :=
 
 Lemma q_read_loop fuel : forall v st,
   Cq v st -> (N.to_nat (wi v - ri v) <= fuel)%nat -> ri v < wi v ->
-  wp T (read_loop fuel v) st (rl_post v).
+  wp false T (read_loop fuel v) st (rl_post v).
 Proof.
   induction fuel as [|f IH]; intros v st HC Hf Hlt; [lia|]. cbn [read_loop].
   destruct (N.eqb_spec (ri v) (wi v)) as [Heq|Hne]; [lia|].
@@ -274,7 +273,7 @@ Definition step_rel (v : vol) (st : store) (v' : vol) (st' : store) : Prop :=
 
 Lemma q_onDone_ok v st i sz :
   Cq v st -> In i (cdi v) ->
-  wp T (onDone c v i sz OOk) st
+  wp false T (onDone c v i sz OOk) st
      (fun v' st' => Cq v' st' /\ ri v' = ri v /\ wi v' = wi v /\ stopped v' = stopped v /\
                     di_of st' = cdi v' /\ S (length (cdi v')) = length (cdi v)).
 Proof.
@@ -286,7 +285,7 @@ Proof.
   assert (L : S (length (cdi v2)) = length (cdi v)).
   { rewrite G6. cbn [v1 set_q cdi]. now apply swap_remove_length. }
   assert (D : forall st', (st' = st2 \/ exists n, st' = set_ikey KSi n st2) ->
-     wp T (Done (unref v2)) st'
+     wp false T (Done (unref v2)) st'
        (fun v' st'0 => Cq v' st'0 /\ ri v' = ri v /\ wi v' = wi v /\ stopped v' = stopped v /\
                     di_of st'0 = cdi v' /\ S (length (cdi v')) = length (cdi v))).
   { intros st' Hst. cbn [wp].
@@ -313,7 +312,7 @@ Proof.
   - assert (Hlt : ri v < wi v) by (destruct HC as (_ & _ & L); lia).
     pose proof (q_read_loop (N.to_nat (wi v - ri v)) v st HC (le_n _) Hlt) as HW.
     match goal with |- context [run_act None st ?mm] => set (m := mm) end.
-    assert (HW2 : @wp (sstate * res)%type T m st (fun x st' =>
+    assert (HW2 : @wp (sstate * res)%type false T m st (fun x st' =>
        let v1 := fst (fst x) in
        Cq v1 st' /\ wi v1 = wi v /\ stopped v1 = false /\ ri v < ri v1 /\ di_of st' = cdi v1 /\
        ((snd (fst x) = [] /\ ri v1 = wi v1 /\ length (cdi v1) = length (cdi v)) \/
@@ -332,7 +331,7 @@ Proof.
     + cbn [nth_error].
       pose proof (q_onDone_ok v1 st1 i sz B1 B6) as HW3.
       match goal with |- context [run_act None st1 ?mm] => set (m2 := mm) end.
-      assert (HW4 : @wp (sstate * res)%type T m2 st1 (fun x st' =>
+      assert (HW4 : @wp (sstate * res)%type false T m2 st1 (fun x st' =>
          let v2 := fst (fst x) in snd (fst x) = [] /\
          Cq v2 st' /\ ri v2 = ri v1 /\ wi v2 = wi v1 /\ stopped v2 = stopped v1 /\
          di_of st' = cdi v2 /\ S (length (cdi v2)) = length (cdi v1))).
@@ -373,20 +372,18 @@ End Quant.
 (* ------------------------------------------------------------------------------------------- *)
 
 Lemma drain_incarnation c E st n :
+  blockOnOverflow c = false ->
   Icr E st -> fits c -> (N.to_nat (rng st) + mu st <= n)%nat ->
   let st' := i_store (incarnation c st (drain_script n) None) in
   rng st' = 0 /\ (mu st' <= mu st)%nat /\
   (rng st = 0 -> nothing_durable st' \/ (mu st' < mu st)%nat).
 Proof.
-  intros HI Hf Hn. unfold incarnation.
+  intros NB HI Hf Hn. unfold incarnation.
   assert (FH : fin_hand E) by apply HI.
   assert (W : wf_store st) by apply HI.
-  pose proof (wp_run _ _ st _ None HI (spec_initClient c E FH st HI)) as R1.
-  pose proof (wp_run T _ st _ None I (q_initClient c st W)) as R2.
-  destruct (run_act None st (initClient c)) as [[st1 b1] [[v errc]|]] eqn:Er.
-  2:{ destruct (run_act_none_some (initClient c) st) as (? & ? & Eq). rewrite Eq in Er. discriminate. }
-  assert (b1 = None) as ->.
-  { destruct (run_act_none_some (initClient c) st) as (? & ? & Eq). rewrite Eq in Er. now inversion Er. }
+  pose proof (wp_run _ _ _ st _ None HI (spec_initClient c E FH st HI)) as R1.
+  destruct (wp_total T _ st _ (q_initClient c NB st W)) as (st1 & [v errc] & Er & R2).
+  rewrite Er in *.
   unfold init_post in R2. cbn [fst snd] in R1, R2. destruct R2 as (Q1 & Q2 & Q3 & Q4 & Q5 & Q6 & Q7).
   destruct W as (Wle & _ & _).
   assert (Hfuel : (N.to_nat (wi v - ri v) <= n)%nat) by (unfold rng, mu in *; lia).
@@ -451,17 +448,17 @@ Proof.
 Qed.
 
 (* after the first drain (range empty): every further drain shortens "di" or nothing is left *)
-Lemma drains_deliver c n : fits c -> forall k st E,
+Lemma drains_deliver c n : blockOnOverflow c = false -> fits c -> forall k st E,
   Icr E st -> rng st = 0 -> (mu st < k)%nat -> (mu st <= n)%nat ->
   forall r, In r (accepted (E ++ snd (run_history c st (drains n k)))) ->
             In r (handoffs (E ++ snd (run_history c st (drains n k)))).
 Proof.
-  intros Hf. induction k as [|k IH]; intros st E HI Hr0 Hk Hn r; [lia|].
+  intros NB Hf. induction k as [|k IH]; intros st E HI Hr0 Hk Hn r; [lia|].
   cbn [drains repeat run_history]. fold (drains n k).
   set (inc := incarnation c st (drain_script n) None).
   pose proof (incarnation_inv c st (drain_script n) None E HI) as HI'. fold inc in HI'.
   assert (Hn' : (N.to_nat (rng st) + mu st <= n)%nat) by lia.
-  destruct (drain_incarnation c E st n HI Hf Hn') as (D1 & D2 & D3). fold inc in D1, D2, D3.
+  destruct (drain_incarnation c E st n NB HI Hf Hn') as (D1 & D2 & D3). fold inc in D1, D2, D3.
   specialize (D3 Hr0).
   destruct (run_history c (i_store inc) (drains n k)) as [st' evs] eqn:Eh. cbn [snd].
   rewrite app_assoc.
@@ -476,27 +473,27 @@ Qed.
 
 (* first sentence of the property: at least once, for every history *)
 Lemma at_least_once_l c h n k :
-  fits c ->
+  blockOnOverflow c = false -> fits c ->
   (pending (fst (run_history c store0 h)) <= n)%nat ->
   (length (di_of (fst (run_history c store0 h))) + 2 <= k)%nat ->
   forall r, In r (accepted (snd (run_history c store0 (h ++ drains n k)))) ->
             In r (handoffs (snd (run_history c store0 (h ++ drains n k)))).
 Proof.
-  intros Hf Hn Hk r. rewrite run_history_app. cbn [snd].
+  intros NB Hf Hn Hk r. rewrite run_history_app. cbn [snd].
   pose proof (history_inv c h store0 [] Icr_store0) as HI. cbn [app] in HI.
   set (st := fst (run_history c store0 h)) in *. set (E := snd (run_history c store0 h)) in *.
   destruct k as [|k]; [lia|]. cbn [drains repeat run_history]. fold (drains n k).
   set (inc := incarnation c st (drain_script n) None).
   pose proof (incarnation_inv c st (drain_script n) None E HI) as HI'. fold inc in HI'.
   assert (Hn' : (N.to_nat (rng st) + mu st <= n)%nat) by (unfold pending, rng, mu in *; exact Hn).
-  destruct (drain_incarnation c E st n HI Hf Hn') as (D1 & D2 & _). fold inc in D1, D2.
-  pose proof (drains_deliver c n Hf k (i_store inc) (E ++ i_events inc) HI' D1) as X.
+  destruct (drain_incarnation c E st n NB HI Hf Hn') as (D1 & D2 & _). fold inc in D1, D2.
+  pose proof (drains_deliver c n NB Hf k (i_store inc) (E ++ i_events inc) HI' D1) as X.
   destruct (run_history c (i_store inc) (drains n k)) as [st' evs]. cbn [snd] in *.
   rewrite app_assoc. apply X; unfold mu in *; lia.
 Qed.
 
 Lemma drain_progress_l c h n :
-  fits c ->
+  blockOnOverflow c = false -> fits c ->
   let st := fst (run_history c store0 h) in
   (pending st <= n)%nat ->
   let st' := i_store (incarnation c st (drain_script n) None) in
@@ -504,10 +501,10 @@ Lemma drain_progress_l c h n :
   (length (di_of st') <= length (di_of st))%nat /\
   (fst (eff st) = snd (eff st) -> nothing_durable st' \/ (length (di_of st') < length (di_of st))%nat).
 Proof.
-  intros Hf st Hn st'.
+  intros NB Hf st Hn st'.
   pose proof (history_inv c h store0 [] Icr_store0) as HI. cbn [app] in HI. fold st in HI.
   assert (Hn' : (N.to_nat (rng st) + mu st <= n)%nat) by (unfold pending, rng, mu in *; exact Hn).
-  destruct (drain_incarnation c _ st n HI Hf Hn') as (D1 & D2 & D3). fold st' in D1, D2, D3.
+  destruct (drain_incarnation c _ st n NB HI Hf Hn') as (D1 & D2 & D3). fold st' in D1, D2, D3.
   pose proof (incarnation_inv c st (drain_script n) None _ HI) as ((W & _) & _). fold st' in W.
   unfold rng, mu in *. split; [lia|]. split; [exact D2|].
   intros He. apply D3. destruct HI as ((W0 & _) & _). lia.
